@@ -379,12 +379,14 @@ impl<'a> ItemUseIter<'a> {
         }
     }
 
-    fn resolve_crate_name(&self) -> CrateName {
-        let crate_name = self.base_name();
+    /// The crate the current leaf is imported from; `None` for a leaf without a leading
+    /// path (`use foo;`, `use {a, b};`), which names a crate or module rather than a type.
+    fn resolve_crate_name(&self) -> Option<CrateName> {
+        let crate_name = self.base_name.as_ref()?;
         if crate_name == "crate" || crate_name == "super" || crate_name == "self" {
-            self.crate_name.clone()
+            Some(self.crate_name.clone())
         } else {
-            CrateName::from(crate_name)
+            Some(CrateName::from(crate_name.clone()))
         }
     }
 
@@ -392,13 +394,6 @@ impl<'a> ItemUseIter<'a> {
         if self.base_name.is_none() {
             self.base_name = Some(ident.to_string());
         }
-    }
-
-    fn base_name(&self) -> String {
-        self.base_name
-            .as_ref()
-            .cloned()
-            .expect("base name not in use statement?")
     }
 }
 
@@ -414,7 +409,9 @@ impl Iterator for ItemUseIter<'_> {
                 }
                 syn::UseTree::Name(name) => {
                     let type_name = name.ident.to_string();
-                    let base_crate = self.resolve_crate_name();
+                    let Some(base_crate) = self.resolve_crate_name() else {
+                        continue;
+                    };
                     if accept_crate(base_crate.as_str()) && accept_type(&type_name) {
                         return Some(ImportedType {
                             base_crate,
@@ -426,7 +423,9 @@ impl Iterator for ItemUseIter<'_> {
                     // TODO: I need to do something here.
                 }
                 syn::UseTree::Glob(_) => {
-                    let base_crate = self.resolve_crate_name();
+                    let Some(base_crate) = self.resolve_crate_name() else {
+                        continue;
+                    };
                     if accept_crate(base_crate.as_str()) {
                         return Some(ImportedType {
                             base_crate,
